@@ -792,6 +792,9 @@ def _vectorize_func(func):
     # the first row, which truncates floats to integers if a float-valued function
     # happens to return an integer literal there.
     return_type = getattr(func, "__annotations__", {}).get("return")
+    if isinstance(return_type, str):
+        # Postponed evaluation of annotations (`from __future__ import annotations`).
+        return_type = {"float": float, "int": int, "bool": bool}.get(return_type)
     if return_type in (float, int, bool):
         func_vec = numpy.vectorize(func, otypes=[return_type])
     else:
